@@ -241,6 +241,17 @@ theorem close_linked {ctxs0 : List Ctx} {a : Args} {c : Conn} {pending : List Ob
     refine ⟨{ c with srv := { c.srv with ctxs := ctxs0 }, log := c.log ++ [(.close, none)] }, ?_, rfl, rfl, rfl, rfl⟩
     simp [close, finallyClose, he, row_closes, doClose, hcl, outErr]
 
+/-- C14's `stepOpen` with default session parameters (how `srvOpen` calls it) is the plain slicing step -/
+theorem stepOpen_default (s : State) (k : Kind) (ns : Nat) (objs : List Obj) (m : Option Int) :
+    stepOpen s {} k ns objs m =
+      (if badMax m then (s, .err .valueError)
+       else if s.disabled then (s, .err (.cimError CIM_ERR_NOT_SUPPORTED))
+       else if !(s.nss.contains ns) then (s, .err (.cimError CIM_ERR_INVALID_NAMESPACE))
+       else if objs.length ≤ effMax m then (s, .batch objs true none)
+       else ({ s with ctxs := s.ctxs ++ [{ id := s.nextId, kind := k, ns := ns, data := objs.drop (effMax m) }],
+                      nextId := s.nextId + 1 }, .batch (objs.take (effMax m)) false (some s.nextId))) := by
+  simp [stepOpen, badTimeout, paramErr, Fql.truthy]
+
 /-! ### the first `next()` -/
 
 theorem maxPos_of_validate {a : Args} (h : validate a = none) : 0 < maxOf a.max := by
@@ -271,12 +282,12 @@ theorem start_pull {c : Conn} {a : Args} (hv : validate a = none) (hu : usePull 
   have hb : badMax (some (maxOf a.max)) = false := by simp [badMax]; omega
   by_cases hlen : a.tradObjs.length ≤ (maxOf a.max).toNat
   · refine ⟨afterOpen c a c.srv, a.tradObjs, true, none, ?_, Or.inl ⟨rfl, rfl, rfl⟩, ⟨hd, hns, hm⟩, rfl, rfl, rfl⟩
-    simp [start, hv, hu, doOpen, srvOpen, hd, hns, hp, ht, stepOpen, hb, effMax, hlen, afterOpen, outErr]
+    simp [start, hv, hu, doOpen, srvOpen, hd, hns, hp, ht, stepOpen_default, hb, effMax, hlen, afterOpen, outErr]
   · refine ⟨afterOpen c a (openedState c.srv (openKind a.fam) a.ns a.tradObjs (some (maxOf a.max))),
       a.tradObjs.take (maxOf a.max).toNat, false, some c.srv.nextId, ?_,
       Or.inr ⟨rfl, c.srv.nextId, a.tradObjs.drop (maxOf a.max).toNat, rfl, ?_, ?_, ?_⟩,
       ⟨hd, hns, hm⟩, rfl, rfl, rfl⟩
-    · simp [start, hv, hu, doOpen, srvOpen, hd, hns, hp, ht, stepOpen, hb, effMax, hlen, afterOpen, outErr,
+    · simp [start, hv, hu, doOpen, srvOpen, hd, hns, hp, ht, stepOpen_default, hb, effMax, hlen, afterOpen, outErr,
         openedState]
     · simp [afterOpen, openedState, theCtx, hk, effMax]
     · intro y hy; have := hinv.below y hy; omega
@@ -654,7 +665,7 @@ theorem srvOpen_cases (s : State) (a : Args) :
       cases h4 : a.tradErr with
       | some e => left; exact ⟨.cimError e, by simp [h1, h2, h3, h4]⟩
       | none =>
-        rcases stepOpen_cases s (openKind a.fam) a.ns a.tradObjs (some (maxOf a.max)) with ⟨e, he⟩ | ⟨_, he⟩ | ⟨_, he⟩
+        rcases stepOpen_cases s {} (openKind a.fam) a.ns a.tradObjs (some (maxOf a.max)) with ⟨e, he⟩ | ⟨_, he⟩ | ⟨_, he⟩
         · left; exact ⟨e, by simp [h1, h2, h3, h4, he]⟩
         · right; left; simp [h1, h2, h3, h4, he]
         · right; right; simp [h1, h2, h3, h4, he]
@@ -812,16 +823,15 @@ theorem stepPull_err_doc (s : State) (k : Kind) (ctx : Option Nat) (m : Option I
             · split at h <;> simp at h
 
 theorem stepOpen_err_doc (s : State) (k : Kind) (ns : Nat) (objs : List Obj) (m : Option Int) (e : PyExc)
-    (h : (stepOpen s k ns objs m).2 = .err e) : Documented e := by
-  unfold stepOpen at h
+    (h : (stepOpen s {} k ns objs m).2 = .err e) : Documented e := by
+  rw [stepOpen_default] at h
   split at h
   · simp at h; exact Or.inl h.symm
   · split at h
     · simp at h; exact Or.inr (Or.inr ⟨_, h.symm⟩)
     · split at h
       · simp at h; exact Or.inr (Or.inr ⟨_, h.symm⟩)
-      · simp only [] at h
-        split at h <;> simp at h
+      · split at h <;> simp at h
 
 theorem srvOpen_err_doc (s : State) (a : Args) (e : PyExc) (h : (srvOpen s a).2 = .err e) : Documented e := by
   unfold srvOpen at h
@@ -1232,9 +1242,9 @@ theorem srvOpen_inv (s : State) (a : Args) (h : Inv s) : Inv (srvOpen s a).1 := 
   rcases srvOpen_cases s a with ⟨e, he⟩ | he | he
   · rw [he]; exact h
   · rw [he]; exact h
-  · have := inv_step (.open (openKind a.fam) a.ns a.tradObjs (some (maxOf a.max))) h
+  · have := inv_step (.open {} (openKind a.fam) a.ns a.tradObjs (some (maxOf a.max))) h
     simp only [Pywbem.Model.Pull.step] at this
-    rcases stepOpen_cases s (openKind a.fam) a.ns a.tradObjs (some (maxOf a.max)) with ⟨e, hs⟩ | ⟨hle, hs⟩ | ⟨hgt, hs⟩
+    rcases stepOpen_cases s {} (openKind a.fam) a.ns a.tradObjs (some (maxOf a.max)) with ⟨e, hs⟩ | ⟨hle, hs⟩ | ⟨hgt, hs⟩
     · rw [he]; rw [hs] at this
       -- srvOpen opened a context, stepOpen did not: impossible, but Inv of the opened state follows anyway
       exact absurd he (by
@@ -1389,9 +1399,9 @@ theorem srvOpen_batch_enabled (s : State) (a : Args) (objs : List Obj) (eos : Bo
   · rename_i hd; simpa using hd
 
 theorem stepOpen_err_enabled (s : State) (k : Kind) (ns : Nat) (objs : List Obj) (m : Option Int) (e : PyExc)
-    (hd : s.disabled = false) (h : (stepOpen s k ns objs m).2 = .err e) :
+    (hd : s.disabled = false) (h : (stepOpen s {} k ns objs m).2 = .err e) :
     e = .valueError ∨ e = .cimError CIM_ERR_INVALID_NAMESPACE := by
-  unfold stepOpen at h
+  rw [stepOpen_default] at h
   by_cases h1 : badMax m = true
   · simp [h1] at h; exact Or.inl h.symm
   · by_cases h3 : ns ∈ s.nss
@@ -1501,8 +1511,8 @@ theorem start_ff (c : Conn) (a : Args) (u : Option Bool) (hff : FF u c.srv.disab
 /-! ### the pull capability is the server's own business: no client action changes it -/
 
 theorem stepOpen_disabled (s : State) (k : Kind) (ns : Nat) (objs : List Obj) (m : Option Int) :
-    (stepOpen s k ns objs m).1.disabled = s.disabled := by
-  rcases stepOpen_cases s k ns objs m with ⟨e, he⟩ | ⟨_, he⟩ | ⟨_, he⟩ <;> rw [he] <;> rfl
+    (stepOpen s {} k ns objs m).1.disabled = s.disabled := by
+  rcases stepOpen_cases s {} k ns objs m with ⟨e, he⟩ | ⟨_, he⟩ | ⟨_, he⟩ <;> rw [he] <;> rfl
 
 theorem stepPull_disabled (s : State) (k : Kind) (ctx : Option Nat) (m : Option Int) :
     (stepPull s k ctx m).1.disabled = s.disabled := by
